@@ -148,7 +148,7 @@ Theorem cum_forward_rf_inverts (x c : series) (rf : Z -> option Z) st a b :
   WF A c -> s_nv c = s_nv x ->
   st <= a -> b <= en ->
   (forall t r, a <= t <= b -> rf t = Some r ->
-     st <= r < t /\ row_at A c t = zip_bcast A chg (row_at A x t) (row_at A x r)) ->
+     st <= r <= t /\ row_at A c t = zip_bcast A chg (row_at A x t) (row_at A x r)) ->
   let r := cumulate_forward_rf A cumf rf (get_data A x) (py_range a (b + 1) 1) a b c in
   forall t, min_period_of rf (py_range a (b + 1) 1) a <= t <= b -> st <= t -> row_at A r t = row_at A x t.
 Proof.
@@ -433,8 +433,8 @@ Theorem kw_cum_forward_inverts ck by_ (x c r : series RA) st a b :
   let fr := s_freq x in
   WF RA x -> s_start x = Some st -> cells_in RA (dom_of ck) x st en ->
   st <= a <= b -> b <= en ->
-  (* every reference period of the span lies in the sample, before its period *)
-  (forall t q, a <= t <= b -> kw_ref fr by_ t = Some (Some q) -> st <= q < t) ->
+  (* every reference period of the span lies in the sample, not after its period *)
+  (forall t q, a <= t <= b -> kw_ref fr by_ t = Some (Some q) -> st <= q <= t) ->
   (* the first period of the span has a reference, or it is a start-of-year period followed by an ordinary one *)
   ((exists q, kw_ref fr by_ a = Some (Some q)) \/
    (kw_ref fr by_ a = Some None /\ (a = b \/ kw_ref fr by_ (a + 1) = Some (Some a)))) ->
@@ -473,3 +473,4 @@ Proof.
 Qed.
 
 End PublicKw.
+
